@@ -654,7 +654,17 @@ package decorator
 //@ requires maps: d.decMapsInv()
 //@ requires objects: d.decObjInv()
 //@ ensures error_result: err != nil ==> result == nil
+//@ ensures maps: d.decMapsInv()
+//@ ensures objects: d.decObjInv()
 //@ loop 1 invariant maps: d.decMapsInv()
+
+// ParseDir decorates every package of a directory with the same decorator: the entry conditions of
+// DecorateNode hold again after each call.
+//@ func (d *Decorator) ParseDir
+//@ requires maps: d.decMapsInv()
+//@ requires objects: d.decObjInv()
+//@ loop 1 invariant maps: d.decMapsInv()
+//@ loop 1 invariant objects: d.decObjInv()
 
 // ---------------------------------------------------------------------------------------------
 // Object and scope graphs (decorator.go, restorer.go)
